@@ -817,6 +817,200 @@ Fixpoint to_array_go (eq : eqfun) (t : table) (i : Z) (l : list (value * value))
       end
   end.
 
+Definition set_table (s : state) (a : N) (t : table) : state :=
+  set_heap s (hset (st_heap s) a (OTable t)).
+Definition str_key : list N := [107; 101; 121]%N.
+Definition str_value : list N := [118; 97; 108; 117; 101]%N.
+
+(* ---- stdlib natives (stdlib.rs). The iteration over the table is taken as a snapshot when the native starts;
+   a key function that mutates the table it is iterated over is outside the model (in the crate it would
+   invalidate the borrowed iterator). ---- *)
+Section StdNatives.
+  Variable self : N -> state -> nres.
+
+  Inductive mmres := MMOk (i : nat) (s : state) | MMFail (r : nres).
+
+  (* the loop of native_minmax over the rows after the first *)
+  Fixpoint minmax_go (less : bool) (key_fn : value) (l : list (value * value)) (j i : nat) (best : value)
+           (s : state) : mmres :=
+    match l with
+    | [] => MMOk i s
+    | (k, v) :: rest =>
+        match spush s v with
+        | None => MMFail (NErr EStackoverflow s)
+        | Some s1 =>
+            match spush s1 k with
+            | None => MMFail (NErr EStackoverflow s1)
+            | Some s2 =>
+                match run_function self key_fn s2 with
+                | NOk key s3 =>
+                    match vcmp (st_heap s3) key best with
+                    | CCrash => MMFail (NStop ACrash s3)
+                    | c =>
+                        let better := match c with CSome Lt => less | CSome Gt => negb less | _ => false end in
+                        if better then minmax_go less key_fn rest (S j) j key s3
+                        else minmax_go less key_fn rest (S j) i best s3
+                    end
+                | r => MMFail r
+                end
+            end
+        end
+    end.
+
+  (* {"key": k, "value": v} *)
+  Definition make_row (s : state) (k v : value) : nres :=
+    let '(s3, row) := salloc s (OTable (mkTable [] [])) in
+    let '(s4, ka) := salloc s3 (OStr str_key) in
+    let eq4 := veq0 (st_heap s4) in
+    match tinsert eq4 (mkTable [] []) (VObj ka) k with
+    | None => NStop ACrash s4
+    | Some t1 =>
+        let '(s5, va) := salloc s4 (OStr str_value) in
+        match tinsert (veq0 (st_heap s5)) t1 (VObj va) v with
+        | None => NStop ACrash s5
+        | Some t2 => NOk (VObj row) (set_table s5 row t2)
+        end
+    end.
+
+  Definition native_minmax (less : bool) (iterable key_fn : value) (s : state) : nres :=
+    match iterable with
+    | VObj a =>
+        match hget (st_heap s) a with
+        | Some (OTable t) =>
+            match titer (veq0 (st_heap s)) t with
+            | None => NStop ACrash s
+            | Some [] => NOk VNil s
+            | Some ((k0, v0) :: rest) =>
+                match spush s v0 with
+                | None => NErr EStackoverflow s
+                | Some s1 =>
+                    match spush s1 k0 with
+                    | None => NErr EStackoverflow s1
+                    | Some s2 =>
+                        match run_function self key_fn s2 with
+                        | NOk key0 s3 =>
+                            match minmax_go less key_fn rest 1 0 key0 s3 with
+                            | MMFail r => r
+                            | MMOk i s4 =>
+                                match hget (st_heap s4) a with
+                                | Some (OTable t') =>
+                                    let k := tnth_key t' i in
+                                    match tget (veq0 (st_heap s4)) t' k with
+                                    | None => NStop ACrash s4
+                                    | Some r => make_row s4 k (match r with Some v => v | None => VNil end)
+                                    end
+                                | _ => NStop AUB s4
+                                end
+                            end
+                        | r => r
+                        end
+                    end
+                end
+            end
+        | Some _ => NOk iterable s
+        | None => NStop AUB s
+        end
+    | _ => NOk iterable s
+    end.
+
+  (* keys of native_sorted *)
+  Inductive skres := SKOk (l : list (value * (value * value))) (s : state) | SKFail (r : nres).
+  Fixpoint sort_keys (key_fn : value) (l : list (value * value)) (s : state) : skres :=
+    match l with
+    | [] => SKOk [] s
+    | (k, v) :: rest =>
+        match spush s v with
+        | None => SKFail (NErr EStackoverflow s)
+        | Some s1 =>
+            match spush s1 k with
+            | None => SKFail (NErr EStackoverflow s1)
+            | Some s2 =>
+                match run_function self key_fn s2 with
+                | NOk key s3 =>
+                    match sort_keys key_fn rest s3 with
+                    | SKOk l' s4 => SKOk ((key, (k, v)) :: l') s4
+                    | f => f
+                    end
+                | r => SKFail r
+                end
+            end
+        end
+    end.
+End StdNatives.
+
+(* sort_key_cmp: keys count as numbers (nil as 0, objects as their length), NaN keys last; [true] = a <= b *)
+Definition sort_number (h : heap) (v : value) : option value :=
+  match v with
+  | VReal _ | VInt _ => Some v
+  | o => match to_i64 h o with Some i => Some (VInt i) | None => None end
+  end.
+Definition is_nan_value (v : value) : bool :=
+  match v with VReal r => match f_cmp F r r with None => true | Some _ => false end | _ => false end.
+Definition sort_key_le (h : heap) (a b : value) : option bool :=
+  match is_nan_value a, is_nan_value b with
+  | false, false =>
+      match sort_number h a, sort_number h b with
+      | Some x, Some y =>
+          match vcmp h x y with
+          | CSome Gt => Some false
+          | CCrash => None
+          | _ => Some true
+          end
+      | _, _ => None
+      end
+  | an, bn => Some (implb an bn)      (* a_nan.cmp(&b_nan) <> Greater *)
+  end.
+(* stable insertion sort: a new element goes behind the elements that are <= it *)
+Fixpoint sort_insert (h : heap) (x : value * (value * value)) (l : list (value * (value * value)))
+  : option (list (value * (value * value))) :=
+  match l with
+  | [] => Some [x]
+  | y :: r =>
+      match sort_key_le h (fst y) (fst x) with
+      | None => None
+      | Some true => match sort_insert h x r with Some r' => Some (y :: r') | None => None end
+      | Some false => Some (x :: l)
+      end
+  end.
+Fixpoint stable_sort (h : heap) (l acc : list (value * (value * value))) : option (list (value * (value * value))) :=
+  match l with
+  | [] => Some acc
+  | x :: r => match sort_insert h x acc with Some acc' => stable_sort h r acc' | None => None end
+  end.
+Fixpoint insert_all (eq : eqfun) (t : table) (l : list (value * (value * value))) : option table :=
+  match l with
+  | [] => Some t
+  | (_, (k, v)) :: r => match tinsert eq t k v with Some t' => insert_all eq t' r | None => None end
+  end.
+
+Definition native_sorted (self : N -> state -> nres) (iterable key_fn : value) (s : state) : nres :=
+  match iterable with
+  | VObj a =>
+      match hget (st_heap s) a with
+      | Some (OTable t) =>
+          match titer (veq0 (st_heap s)) t with
+          | None => NStop ACrash s
+          | Some l =>
+              match sort_keys self key_fn l s with
+              | SKFail r => r
+              | SKOk keyed s1 =>
+                  match stable_sort (st_heap s1) keyed [] with
+                  | None => NStop ACrash s1
+                  | Some sorted =>
+                      let '(s2, out) := salloc s1 (OTable (mkTable [] [])) in
+                      match insert_all (veq0 (st_heap s2)) (mkTable [] []) sorted with
+                      | None => NStop ACrash s2
+                      | Some t' => NOk (VObj out) (set_table s2 out t')
+                      end
+                  end
+              end
+          end
+      | Some _ => NOk iterable s
+      | None => NStop AUB s
+      end
+  | _ => NOk iterable s
+  end.
+
 (* number of typed parameters (traits.rs: VmFunction1..4; fail0 is a plain closure Fn(&mut Vm)) *)
 Definition native_arity (n : native) : nat :=
   match n with
@@ -891,7 +1085,9 @@ Definition native_body (self : N -> state -> nres) (n : native) (s : state) : nr
           end
       | _ => NOk v s
       end
-  | NStdMin | NStdMax | NStdSort => NStop AUnmodelled s
+  | NStdMin => native_minmax self true (speek s 1) (speek s 0) s
+  | NStdMax => native_minmax self false (speek s 1) (speek s 0) s
+  | NStdSort => native_sorted self (speek s 1) (speek s 0) s
   end.
 
 (* call_native: the arguments are popped (whatever is on top by then), an error is wrapped as
@@ -984,8 +1180,6 @@ Definition get_table (h : heap) (v : value) : tblres :=
   | _ => TblNot
   end.
 
-Definition set_table (s : state) (a : N) (t : table) : state :=
-  set_heap s (hset (st_heap s) a (OTable t)).
 
 (* write_local_var *)
 Definition write_local (s : state) (off : nat) (handle : N) (v : value) : option state :=
@@ -1006,8 +1200,6 @@ Definition op_u32 (ip : N) := read_le (p_code P) ip 4.
 
 Definition unknown_var_name : list N :=
   [60; 60; 60; 85; 110; 107; 110; 111; 119; 110; 32; 118; 97; 114; 105; 97; 98; 108; 101; 62; 62; 62]%N.
-Definition str_key : list N := [107; 101; 121]%N.
-Definition str_value : list N := [118; 97; 108; 117; 101]%N.
 
 Definition i_4 (opc ip0 ip : N) (s : state) : sres := (* CallNative *)
   match op_u32 ip with
